@@ -427,12 +427,19 @@ def deterministic(arch, tier, part=0, nparts=1, stride=1, block=1):
     """Yield (stratum, index, bytes) of the seed-independent strata that belong to slice `part` of `nparts`.
     `stride` > 1 keeps every stride-th enumerated sample only (curated vectors are always kept).
     Slices are dealt round-robin in runs of `block` consecutive samples (block ~ 32 keeps the samples of one
-    opcode in one slice)."""
+    opcode in one slice); block=0 gives each slice one contiguous range of the enumeration."""
     if isinstance(arch, str):
         arch = ARCHS[arch]
+    if block == 0:
+        total = sum(1 for _ in enumeration(arch, tier))
+        kept = (total + stride - 1) // stride
+        block = max(1, (kept + nparts - 1) // nparts)
+        cblock = max(1, (len(curated(arch)) + nparts - 1) // nparts)
+    else:
+        cblock = block
     i = 0
     for b in curated(arch):
-        if (i // block) % nparts == part:
+        if (i // cblock) % nparts == part:
             yield "curated", i, b
         i += 1
     j = 0
